@@ -17,6 +17,7 @@ func TestVerif_C25(t *testing.T) {
 	c25Inputs(r)
 	// C25-SCHED-HOOK
 	c25Sched(r)
+	c25Handler(r)
 	if err := r.Finish(); err != nil {
 		t.Fatal(err)
 	}
